@@ -1,14 +1,17 @@
 /-
   Stevia.Proofs.GenTreeRefine8 — end of the chain for `u8_avl_tree.rs`:
 
-      translated source (Gen8.*)  =  literal model (Imp.*)  =  functional model (Tree.*) on layouts
+      translated source (Gen8.*)  =  if <loops terminate> then some (literal model Imp.*) else none
+      literal model                =  functional model (Tree.*) on layouts          (TreeImpEq, TreeImpRemove)
+      loops terminate                on layouts of well-formed states                (TreeImpTerm)
 
-  For every state `s` satisfying the invariant (every reachable state does), running the *translated Rust
-  function* on the register layout of `s` yields the register layout of the functional model's result and the
-  functional model's answer.  The property theorems (C01 … C12) are about the functional model.
+  For every state `s` satisfying the invariant (every reachable state does), running the *translated Rust function*
+  on the register layout of `s` answers `some …` — it neither panics nor runs out of fuel (no endless loop) — with
+  the register layout of the functional model's result and the functional model's answer.  The property theorems
+  (C01 … C12) are about the functional model.
 -/
 import Stevia.Proofs.GenTreeOps8
-import Stevia.Proofs.TreeImpRemove
+import Stevia.Proofs.TreeImpTerm
 
 namespace Stevia
 namespace Gen8
@@ -16,42 +19,72 @@ open Imp
 variable {α β : Type} [LinOrd α]
 set_option linter.unusedSectionVars false
 
-theorem insert_refines (kd : α) (vd : β) (s s' : Tree α β) (h : s.Inv cfgU8) (k : α) (v : β)
-    (r : Option Nat) (hi : s.insert cfgU8 k v = .ok (s', r)) :
-    (insert (Imp.dflt kd vd) (s.image cfgU8 kd vd) k v).getD (s.image cfgU8 kd vd, none)
-      = (s'.image cfgU8 kd vd, r) := by
-  rw [insert_eq]; exact Imp.insert_eq cfgU8 kd vd s s' h k v r hi
-
-theorem remove_refines (kd : α) (vd : β) (s s' : Tree α β) (h : s.Inv cfgU8) (k : α)
-    (r : Option β) (hr : s.remove k = .ok (s', r)) :
-    remove (Imp.dflt kd vd) (s.image cfgU8 kd vd) k = (s'.image cfgU8 kd vd, r) := by
-  rw [remove_eq]; exact Imp.remove_eq cfgU8 kd vd s s' h k r hr
-
 theorem find_refines (kd : α) (vd : β) (s : Tree α β) (h : s.Inv cfgU8) (k : α) :
-    find (Imp.dflt kd vd) (s.image cfgU8 kd vd) k = (s.root.find k).map (·.1) := by
-  rw [find_eq, Tree.image_recs_length]; exact Imp.find_eq cfgU8 kd vd s h k
+    find (Imp.dflt kd vd) (s.image cfgU8 kd vd) k = some ((s.root.find k).map (·.1)) := by
+  rw [find_eq, Tree.image_recs_length]
+  rw [show (s.image cfgU8 kd vd).hdr.root = s.root.slot from rfl, Imp.findT_image cfgU8 kd vd s h k,
+    Imp.find_eq cfgU8 kd vd s h k]
+  rfl
 
 theorem contains_refines (kd : α) (vd : β) (s : Tree α β) (h : s.Inv cfgU8) (k : α) :
-    contains (Imp.dflt kd vd) (s.image cfgU8 kd vd) k = (s.root.find k).isSome := by
+    contains (Imp.dflt kd vd) (s.image cfgU8 kd vd) k = some (s.root.find k).isSome := by
   rw [contains_eq, Tree.image_recs_length]
-  have := Imp.find_eq cfgU8 kd vd s h k
-  rw [show (s.image cfgU8 kd vd).hdr.root = s.root.slot from rfl, this]
+  rw [show (s.image cfgU8 kd vd).hdr.root = s.root.slot from rfl, Imp.findT_image cfgU8 kd vd s h k,
+    Imp.find_eq cfgU8 kd vd s h k]
   cases s.root.find k <;> rfl
 
 theorem lowest_refines (kd : α) (vd : β) (s : Tree α β) (h : s.Inv cfgU8) :
-    lowest (Imp.dflt kd vd) (s.image cfgU8 kd vd) = s.lowest := by
-  rw [lowest_eq]; exact Imp.lowest_eq cfgU8 kd vd s h
+    lowest (Imp.dflt kd vd) (s.image cfgU8 kd vd) = some s.lowest := by
+  rw [lowest_eq, Tree.image_recs_length, show (s.image cfgU8 kd vd).hdr.root = s.root.slot from rfl,
+    if_pos (Imp.lowestT_image cfgU8 kd vd s h), Imp.lowest_eq cfgU8 kd vd s h]
 
 theorem from_bytes_mut_refines (kd : α) (vd : β) (s : Tree α β) (h : s.Inv cfgU8) :
     from_bytes_mut (Imp.dflt kd vd) (s.image cfgU8 kd vd) = (s.openMut cfgU8).image cfgU8 kd vd := by
   rw [from_bytes_mut_eq]; exact Imp.openMut_eq cfgU8 kd vd s h
 
 theorem get_mut_refines (kd : α) (vd : β) (s : Tree α β) (h : s.Inv cfgU8) (k : α) (v : β) :
-    (match (get_mut (Imp.dflt kd vd) (s.image cfgU8 kd vd) k).2 with
+    (get_mut (Imp.dflt kd vd) (s.image cfgU8 kd vd) k).map (fun r => match r.2 with
       | none => (s.image cfgU8 kd vd, false)
       | some i => (wr (s.image cfgU8 kd vd) i fun r => { r with val := v }, true))
-      = (((s.update k v).1).image cfgU8 kd vd, (s.update k v).2) := by
-  exact (get_mut_eq _ _ k v).trans (Imp.update_eq cfgU8 kd vd s h k v)
+      = some (((s.update k v).1).image cfgU8 kd vd, (s.update k v).2) := by
+  refine (get_mut_eq _ _ k v).trans ?_
+  rw [Tree.image_recs_length, show (s.image cfgU8 kd vd).hdr.root = s.root.slot from rfl,
+    Imp.findT_image cfgU8 kd vd s h k, Imp.update_eq cfgU8 kd vd s h k v]
+  rfl
+
+theorem insert_refines (kd : α) (vd : β) (s s' : Tree α β) (h : s.Inv cfgU8) (k : α) (v : β)
+    (r : Option Nat) (hi : s.insert cfgU8 k v = .ok (s', r)) :
+    insert (Imp.dflt kd vd) (s.image cfgU8 kd vd) k v = some (s'.image cfgU8 kd vd, r) := by
+  rw [insert_eq, Tree.image_recs_length, show (s.image cfgU8 kd vd).hdr.root = s.root.slot from rfl,
+    if_pos (Imp.insertT_image cfgU8 kd vd s h k)]
+  have hget := Imp.insertO_getD cfgU8 (Imp.dflt kd vd) (s.image cfgU8 kd vd) k v
+  rw [Imp.insert_eq cfgU8 kd vd s s' h k v r hi] at hget
+  -- `insertO` is never `none` here: `add` succeeds whenever the tree is not full
+  have hsome : ∃ x, Imp.insertO cfgU8 (Imp.dflt kd vd) (s.image cfgU8 kd vd) k v = some x := by
+    unfold Imp.insertO
+    have hfullEq : Imp.isFull (s.image cfgU8 kd vd) = s.isFull := rfl
+    by_cases hf : s.isFull = true
+    · simp only [hfullEq, hf, if_true]
+      split
+      · exact ⟨_, rfl⟩
+      · split <;> exact ⟨_, rfl⟩
+    · have hlt : s.size < s.cap := by
+        simp only [Tree.isFull, ge_iff_le, decide_eq_true_eq, Nat.not_le] at hf; exact hf
+      obtain ⟨s1, i, _, _, _, _, _, _, _, _, _, hadd⟩ := _root_.Stevia.add_eq cfgU8 kd vd s h hlt (Imp.dflt kd vd) k v
+      simp only [hfullEq, hf, Bool.false_eq_true, if_false, hadd, Option.map_some]
+      split
+      · exact ⟨_, rfl⟩
+      · split <;> exact ⟨_, rfl⟩
+  obtain ⟨x, hx⟩ := hsome
+  rw [hx] at hget ⊢
+  simp only [Option.getD_some] at hget
+  rw [hget]
+
+theorem remove_refines (kd : α) (vd : β) (s s' : Tree α β) (h : s.Inv cfgU8) (k : α)
+    (r : Option β) (hr : s.remove k = .ok (s', r)) :
+    remove (Imp.dflt kd vd) (s.image cfgU8 kd vd) k = some (s'.image cfgU8 kd vd, r) := by
+  rw [remove_eq, Imp.removeTerm_image cfgU8 kd vd s h k, Imp.remove_eq cfgU8 kd vd s s' h k r hr]
+  rfl
 
 theorem sizes_refine (kd : α) (vd : β) (s : Tree α β) :
     len (Imp.dflt kd vd) (s.image cfgU8 kd vd) = s.size ∧
@@ -61,12 +94,12 @@ theorem sizes_refine (kd : α) (vd : β) (s : Tree α β) :
   ⟨rfl, rfl, rfl, rfl⟩
 
 /-- One whole `insert` transition as the Rust performs it on a buffer — `from_bytes_mut`, then `insert` —
-    from the layout of any reachable state: it cannot fault, it ends in the layout of a reachable state, and both
-    the state and the returned slot are the functional model's. -/
+    from the layout of any reachable state: the translated code answers `some …` (no panic, no loop that runs on),
+    ends in the layout of a reachable state, and both the state and the returned slot are the functional model's. -/
 theorem transition_insert (kd : α) (vd : β) (s : Tree α β) (h : Tree.Reach cfgU8 s) (k : α) (v : β) :
     ∃ s' r, Tree.Reach cfgU8 s' ∧ (s.openMut cfgU8).insert cfgU8 k v = .ok (s', r) ∧
-      (insert (Imp.dflt kd vd) (from_bytes_mut (Imp.dflt kd vd) (s.image cfgU8 kd vd)) k v).getD
-          (from_bytes_mut (Imp.dflt kd vd) (s.image cfgU8 kd vd), none) = (s'.image cfgU8 kd vd, r) := by
+      insert (Imp.dflt kd vd) (from_bytes_mut (Imp.dflt kd vd) (s.image cfgU8 kd vd)) k v
+        = some (s'.image cfgU8 kd vd, r) := by
   have hinv := Tree.reach_inv h
   obtain ⟨s', hs, _⟩ := Tree.step_ok hinv (TreeOp.insert k v) trivial
   have hreach : Tree.Reach cfgU8 s' := Tree.Reach.step (TreeOp.insert k v) h trivial hs
@@ -86,7 +119,7 @@ theorem transition_insert (kd : α) (vd : β) (s : Tree α β) (h : Tree.Reach c
 theorem transition_remove (kd : α) (vd : β) (s : Tree α β) (h : Tree.Reach cfgU8 s) (k : α) :
     ∃ s' r, Tree.Reach cfgU8 s' ∧ (s.openMut cfgU8).remove k = .ok (s', r) ∧
       remove (Imp.dflt kd vd) (from_bytes_mut (Imp.dflt kd vd) (s.image cfgU8 kd vd)) k
-        = (s'.image cfgU8 kd vd, r) := by
+        = some (s'.image cfgU8 kd vd, r) := by
   have hinv := Tree.reach_inv h
   obtain ⟨s', hs, _⟩ := Tree.step_ok hinv (TreeOp.remove k) trivial
   have hreach : Tree.Reach cfgU8 s' := Tree.Reach.step (TreeOp.remove k) h trivial hs
